@@ -47,6 +47,11 @@ def plan(tier, seed):
         specs.append({'kind': 'update60', 'count': 60 if tier == 'quick' else 250})
     for i in range(k):
         specs.append({'kind': 'consumer', 'count': 400 if tier == 'quick' else 2500})
+    specs.append({'kind': 'via_writer', 'count': 60 if tier == 'quick' else 400})
+    # the same monitors with assertions compiled out (python -O / PYTHONOPTIMIZE=1)
+    specs.append({'kind': 'soup', 'count': 30, 'maxlen': 1500, 'pyopt': True})
+    specs.append({'kind': 'consumer', 'count': 300, 'pyopt': True})
+    specs.append({'kind': 'update60', 'count': 40, 'pyopt': True})
     return specs
 
 
@@ -225,6 +230,12 @@ def run_shard(spec, ctx):
     from pico8.game.formatter import p8png
     rng = ctx.rng
     kind = spec['kind']
+    if spec.get('pyopt'):
+        import sys
+        if not sys.flags.optimize:
+            ctx.inconclusive_because('pyopt shard is not running with assertions disabled')
+            return
+        ctx.feature('optimized_interpreter_shards')
     if kind == 'exh':
         if spec['prefix'] is None:
             for L in range(0, spec['maxlen'] + 1):
@@ -296,6 +307,37 @@ def run_shard(spec, ctx):
             check_producer(ctx, t, 'update60', compress, p8png)
             if i == 0:
                 ctx.sample({'update60_text': t[:100]})
+    elif kind == 'via_writer':
+        # the compressed code area as the cart writer produces it (P8PNGFormatter.to_file), read back from the PNG by the
+        # reference readers
+        import io
+        from .. import carts
+        from pico8.game.formatter.p8png import P8PNGFormatter
+        for i in range(spec['count']):
+            t = carts.simple_lua(rng, rng.choice((200, 700, 2000)), update60=rng.choice((None, 'start', 'middle', 'end')))
+            if rng.random() < 0.4:
+                t = t.rstrip(b'\n')
+            if not in_domain(t):
+                continue
+            regions, _ = carts.random_regions(rng, 'zero')
+            case = {'kind': 'producer', 'text': t, 'tag': 'via_writer'}
+            ctx.case(t + b'#writer')
+            try:
+                buf = io.BytesIO()
+                P8PNGFormatter.to_file(carts.make_game(regions, code=t, version=8), buf)
+                area = rc.read_p8png(buf.getvalue())['code_area']
+            except Exception as e:
+                ctx.violation('cart writer raised %r' % (e,), case)
+                continue
+            if bytes(area[:4]) != rc.C_HEADER:
+                ctx.feature('writer_stored_raw')
+                continue
+            ctx.monitor('writer_areas_decoded')
+            got, problems = rc.c_decode(area)
+            if problems or got != t:
+                ctx.violation('code area written by the cart writer decodes (reference) to %d bytes, the code has %d (problems %s, tail %r)' % (
+                    len(got), len(t), problems, got[-30:]), case)
+        ctx.sample({'via_writer': 'simple_lua text with _update60 written by P8PNGFormatter.to_file'})
     elif kind == 'consumer':
         for i in range(spec['count']):
             r = rng.random()
@@ -350,6 +392,10 @@ def gates(m, tier):
             missed.append('tail offset %d missing' % k)
     if mon.get('own_decodes_compared', 0) < 1000 or mon.get('foreign_streams_compared', 0) < 500:
         missed.append('monitors saw too few events')
+    if mon.get('writer_areas_decoded', 0) < 30:
+        missed.append('code areas written by the cart writer decoded: %d' % mon.get('writer_areas_decoded', 0))
+    if f.get('optimized_interpreter_shards', 0) < 3:
+        missed.append('shards under python -O: %d' % f.get('optimized_interpreter_shards', 0))
     if mon.get('writer_packaging_compared', 0) < 50:
         missed.append('writer packaging path compared %d times' % mon.get('writer_packaging_compared', 0))
     return missed
